@@ -198,9 +198,53 @@ def gen_case(rng, nmax=120, malformed=False):
                 fref = 299792458.0 / 1550e-9 if not fd['ref'] else (299792458.0 / fd['ref'][1] if fd['ref'][0] == 'w' else fd['ref'][1])
                 if fref < fd['loss']['frequency'][0]:
                     fd['loss'] = {'frequency': [fref - 1e11] + fd['loss']['frequency'], 'value': [rng.uniform(0.2, 0.3)] + fd['loss']['value']}
+    # per-frequency tables are listed by increasing, decreasing or arbitrary frequency
+    def reorder(fs, vs):
+        how = rng.choice(['inc', 'inc', 'dec', 'dec', 'shuffled'])
+        idx = list(range(len(fs)))
+        if how == 'dec':
+            idx.reverse()
+        elif how == 'shuffled':
+            rng.shuffle(idx)
+        return [fs[i] for i in idx], [vs[i] for i in idx]
+    if isinstance(fd['loss'], dict):
+        a_, b_ = reorder(fd['loss']['frequency'], fd['loss']['value'])
+        fd['loss'] = {'frequency': a_, 'value': b_}
+    if fd['disp'] and fd['disp'][0] == 't':
+        a_, b_ = reorder(fd['disp'][1], fd['disp'][2])
+        fd['disp'] = ['t', a_, b_]
     return {'fiber': fd, 'raman_flag': raman_flag, 'chan': chans, 'order': 'shuffled' if rng.random() < 0.3 and len(chans) > 1 else 'sorted',
             'perm_seed': rng.randint(0, 10 ** 9), 'k': rng.choice([2.0, 2.0, 0.5, rng.uniform(0.25, 4)]),
             'pick': rng.randint(0, len(chans) - 1), 'raise_db': rng.uniform(0.1, 6)}
+
+
+def gen_history(rng):
+    base = gen_case(rng, nmax=24)
+    while base['fiber'].get('raman') and rng.random() < 0.7:       # Raman spans are slow: keep a few
+        base = gen_case(rng, nmax=24)
+    fd = base['fiber']
+    chans = sorted(base['chan'], key=lambda c: c[0])
+    steps = [{'set': {}, 'chan': chans}]
+    for _ in range(rng.randint(1, 3)):
+        what = rng.choice(['length_km', 'length_km', 'att_in', 'con_in', 'con_out', None])
+        upd = {}
+        if what == 'length_km':
+            upd['length_km'] = rng.choice([fd['length_km'] / 2, fd['length_km'] * rng.uniform(0.2, 1.8), rng.uniform(1, 150)])
+        elif what:
+            upd[what] = rng.choice([0.0, rng.uniform(0.1, 3)])
+        prev = steps[-1]['chan']
+        r = rng.random()
+        if r < 0.55:
+            new = [list(c) for c in prev]                                     # the same comb again
+        elif r < 0.7:
+            new = [[c[0], c[1], c[2], c[3] * 10 ** (rng.uniform(-3, 3) / 10)] for c in prev]      # same grid, other powers
+        elif r < 0.85:
+            new = [[c[0], min(c[2], c[1] * rng.uniform(0.6, 1.3)), c[2], c[3]] for c in prev]     # other baud rates
+        else:
+            keep = sorted(rng.sample(range(len(prev)), max(1, len(prev) - rng.randint(1, max(1, len(prev) // 2)))))
+            new = [list(prev[i]) for i in keep]                               # fewer channels
+        steps.append({'set': upd, 'chan': new})
+    return dict(base, order='sorted', history=steps, chan=chans)
 
 
 # ------------------------------------------------------------------ implementation driver
@@ -262,15 +306,31 @@ def direct_nli(fib, chans, duck=False):
 
 
 def drive(case):
+    """fresh fibre object, one propagation"""
+    set_sim(case.get('raman_flag'))
+    try:
+        fib = make_fiber(case['fiber'])
+    except Exception as e:   # noqa
+        set_sim(False)
+        return {'out': f'E:{type(e).__name__}', 'exc': str(e)}
+    return propagate(fib, case)
+
+
+def apply_setters(fib, upd):
+    """change public fibre parameters the way client code does (network.py sets params.length, att_in, con_in/out)"""
+    for k, v in upd.items():
+        if k == 'length_km':
+            fib.params.length = v * 1e3
+        else:
+            setattr(fib.params, k, v)
+
+
+def propagate(fib, case):
     """returns dict(out= list of nli | 'E:Type', ratio=..., phys=...) from Fiber.__call__ with compute_nli wrapped"""
     import gnpy.core.science_utils as su
     from gnpy.core.info import SpectralInformation
     rec = {}
     set_sim(case.get('raman_flag'))
-    try:
-        fib = make_fiber(case['fiber'])
-    except Exception as e:   # noqa
-        return {'out': f'E:{type(e).__name__}', 'exc': str(e)}
     rec['fiber'] = fib
     chans = sorted(case['chan'], key=lambda c: c[0])
     captured = {}
@@ -354,7 +414,7 @@ def _oracle(case, rec, state):
             fails.append(('not_cubic', f'power x{k}: channel {i} NLI x{b / a if a else math.inf} instead of x{k ** 3}'))
             break
     # raising one power never lowers anybody's NLI
-    j = case['pick']
+    j = case['pick'] % len(chans)
     up = [list(c) for c in chans]
     up[j][3] *= 10 ** (case['raise_db'] / 10)
     state['step'] = 'raised'
@@ -413,6 +473,7 @@ def ref_phys(fd, f):
     def interp(xs, ys):
         if len(xs) == 1:
             return None
+        xs, ys = zip(*sorted(zip(xs, ys)))       # rows in any order: the table is a function of frequency
         if f < xs[0] or f > xs[-1]:
             return 'out'
         for x0, x1, y0, y1 in zip(xs, xs[1:], ys, ys[1:]):
@@ -479,10 +540,19 @@ def i_strict(base, ra, j):
 
 
 # ------------------------------------------------------------------ model side
+def sorted_table(fs, vs):
+    pairs = sorted(zip(fs, vs))
+    return [a for a, _ in pairs], [b for _, b in pairs]
+
+
 def fiber_term(fd):
     ref = 'rD' if not fd['ref'] else f"({'rW' if fd['ref'][0] == 'w' else 'rF'} {hexf(fd['ref'][1])})"
     ls = fd['loss']
-    loss = f"(lT {flist(ls['frequency'])} {flist(ls['value'])})" if isinstance(ls, dict) else f'(lS {hexf(ls)})'
+    if isinstance(ls, dict):
+        lf, lv = sorted_table(ls['frequency'], ls['value'])       # a table is a set of (frequency, value) rows
+        loss = f'(lT {flist(lf)} {flist(lv)})'
+    else:
+        loss = f'(lS {hexf(ls)})'
     d = fd['disp']
     if not d:
         disp = 'dD'
@@ -491,7 +561,8 @@ def fiber_term(fd):
     elif d[0] == 'l':
         disp = f'(dL {hexf(d[1])} {hexf(d[2])})'
     else:
-        disp = f'(dT {flist(d[1])} {flist(d[2])})'
+        df_, dv_ = sorted_table(d[1], d[2])
+        disp = f'(dT {flist(df_)} {flist(dv_)})'
     a = fd['area']
     area = 'aD' if not a else f"({'aA' if a[0] == 'a' else 'aG'} {hexf(a[1])})"
     return f"(fb {hexf(fd['length_km'] * 1e3)} {hexf(fd['att_in'])} {hexf(fd['con_in'])} {ref} {loss} {disp} {area})"
@@ -549,29 +620,26 @@ def run(ctx):
         nbad = ctx.scale(16, 120)
         cases += [gen_case(rng, nmax=ctx.scale(120, 120)) for _ in range(n)]
         cases += [gen_case(rng, nmax=12, malformed=True) for _ in range(nbad)]
+        cases += [gen_history(rng) for _ in range(ctx.scale(30, 400))]
 
     # --- binary64 elementary functions of NumF against libm (trusted-base sanity, not a property verdict)
     pts = selftest_terms(rng, ctx.scale(60, 400))
     st_terms = [f'run_fun {k} {hexf(x)}' for k, x in pts]
 
     terms, meta = [], []
-    for c in cases:
-        rec = drive(c)
-        if isinstance(rec['out'], str) and c.get('order') == 'shuffled' and 'fiber' in rec:
-            rec2 = drive(dict(c, order='sorted'))
-            if not isinstance(rec2['out'], str):
-                ctx.violation('order_dependence_raises',
-                              f"comb accepted when supplied sorted by frequency, but {rec['out'][2:]} ({rec.get('exc', '')[:120]}) "
-                              'when the same channels are supplied in another order', strip(c))
-                rec = rec2
+    def judge(c, rec, record=None):
+        """one propagation: counters, oracles on the implementation, model terms (record = what to store as failing input)"""
         chans = sorted(c['chan'], key=lambda ch: ch[0])
         n = len(chans)
         numeric = not isinstance(rec['out'], str)
-        ctx.case(strip(c), n >= 2 and numeric)
+        ctx.case(strip(record or c), n >= 2 and numeric)
         ctx.count('channels_total', n)
         ctx.count('nch_1' if n == 1 else 'nch_2_10' if n <= 10 else 'nch_11_50' if n <= 50 else 'nch_51_120')
         fd = c['fiber']
         ctx.count('loss_table' if isinstance(fd['loss'], dict) else 'loss_scalar')
+        for tbl in ([fd['loss']['frequency']] if isinstance(fd['loss'], dict) else []) + ([fd['disp'][1]] if fd['disp'] and fd['disp'][0] == 't' else []):
+            if len(tbl) > 1:
+                ctx.count('table_increasing' if tbl == sorted(tbl) else 'table_decreasing' if tbl == sorted(tbl, reverse=True) else 'table_shuffled')
         ctx.count('disp_' + (fd['disp'][0] if fd['disp'] else 'default'))
         ctx.count('area_' + (fd['area'][0] if fd['area'] else 'default'))
         ctx.count('ref_' + (fd['ref'][0] if fd['ref'] else 'default'))
@@ -587,7 +655,7 @@ def run(ctx):
                 ctx.count('beta2_changes_sign_in_comb')
         if numeric:
             for key, desc in oracle(c, rec, rng):
-                ctx.violation(key, desc, strip(c))
+                ctx.violation(key, desc, strip(record or c))
             # the NLI added in the fibre is the published closed form on the launched comb and the declared fibre
             ref_v = ref_nli(fd, chans)
             if ref_v is not None:
@@ -595,25 +663,25 @@ def run(ctx):
                 for i, (a, b) in enumerate(zip(rec['out'], ref_v)):
                     if not close(a, b, 1e-9):
                         ctx.violation('closed_form', f'channel {i} of {len(chans)}: Fiber.__call__ added NLI {a!r}, GN closed form gives {b!r} '
-                                      f'(rel {abs(a - b) / max(abs(b), 1e-300):.3g})', strip(c))
+                                      f'(rel {abs(a - b) / max(abs(b), 1e-300):.3g})', strip(record or c))
                         break
             # the coefficients the solver used are those of the declared fibre
             ref = ref_phys(fd, chans[0][0])
             if ref and not isinstance(rec['phys'], str):
                 for name, a, b in zip(('alpha', 'beta2', 'gamma'), rec['phys'], ref):
                     if not close(a, b, 1e-9):
-                        ctx.violation('fibre_coefficient', f'{name} at {chans[0][0]:.6g} Hz: fibre gives {a!r}, declared parameters give {b!r}', strip(c))
+                        ctx.violation('fibre_coefficient', f'{name} at {chans[0][0]:.6g} Hz: fibre gives {a!r}, declared parameters give {b!r}', strip(record or c))
             # the spectrum handed to the NLI solver is the input spectrum after the input connector and padding
             att = 10 ** (-(fd['con_in'] + fd['att_in']) / 10)
             for i, (pw, ch) in enumerate(zip(rec['pch_at_nli'], chans)):
                 if not close(pw, ch[3] * att, 1e-12):
                     ctx.violation('launch_power', f'channel {i}: NLI computed on {pw!r} W, input after con_in + att_in '
-                                  f'({fd["con_in"]} + {fd["att_in"]} dB) is {ch[3] * att!r} W', strip(c))
+                                  f'({fd["con_in"]} + {fd["att_in"]} dB) is {ch[3] * att!r} W', strip(record or c))
                     break
             # the NLI really added to the spectrum is the vector compute_nli returned, channel by channel
             for i, (r_, nl, ch) in enumerate(zip(rec['nli_ratio'], rec['out'], chans)):
                 if not close(r_, nl / (ch[3] * att), 1e-9):
-                    ctx.violation('nli_not_added', f'channel {i}: nli share after Fiber.__call__ {r_} != compute_nli/pch {nl / (ch[3] * att)}', strip(c))
+                    ctx.violation('nli_not_added', f'channel {i}: nli share after Fiber.__call__ {r_} != compute_nli/pch {nl / (ch[3] * att)}', strip(record or c))
                     break
         # model: channels in the order the solver saw them (sorted by SpectralInformation)
         terms.append(f'run_nli {fiber_term(fd)} {chan_terms(chans)}')
@@ -631,9 +699,65 @@ def run(ctx):
                 rec['duck'] = direct_nli(rec['fiber'], sh, duck=True)
             except Exception as e:  # noqa
                 rec['duck'] = f'E:{type(e).__name__}'
-                ctx.violation('order_dependence_raises', f'compute_nli on unsorted arrays: {type(e).__name__}: {str(e)[:120]}', strip(c))
+                ctx.violation('order_dependence_raises', f'compute_nli on unsorted arrays: {type(e).__name__}: {str(e)[:120]}', strip(record or c))
             ctx.count('unsorted_solver_cases')
-        meta.append((c, rec, sh is not None))
+        meta.append((record or c, rec, sh is not None))
+
+
+    for c in cases:
+        if 'history' in c:
+            continue
+        rec = drive(c)
+        if isinstance(rec['out'], str) and c.get('order') == 'shuffled' and 'fiber' in rec:
+            rec2 = drive(dict(c, order='sorted'))
+            if not isinstance(rec2['out'], str):
+                ctx.violation('order_dependence_raises',
+                              f"comb accepted when supplied sorted by frequency, but {rec['out'][2:]} ({rec.get('exc', '')[:120]}) "
+                              'when the same channels are supplied in another order', strip(c))
+                rec = rec2
+        judge(c, rec)
+
+    # histories: ONE fibre object, propagated several times while its public parameters are changed through their setters
+    # (length, att_in, con_in, con_out) and the comb is kept or changed; every call is judged like a single propagation on
+    # a fibre declared with the parameters in force at that call, and must equal what a freshly built fibre gives
+    for c in cases:
+        if 'history' not in c:
+            continue
+        ctx.count('histories')
+        set_sim(c.get('raman_flag'))
+        try:
+            fib = make_fiber(c['fiber'])
+        except Exception as e:  # noqa
+            ctx.violation('exception', f'fibre of a history cannot be built: {type(e).__name__}: {e}', strip(c))
+            continue
+        fd = dict(c['fiber'])
+        for k, step in enumerate(c['history']):
+            fd = dict(fd, **step['set'])
+            upto = dict(c, history=c['history'][:k + 1])
+            step_case = dict({kk: v for kk, v in c.items() if kk != 'history'}, fiber=fd, chan=step['chan'], order='sorted')
+            try:
+                apply_setters(fib, step['set'])
+                rec = propagate(fib, step_case)
+            except Exception as e:  # noqa
+                ctx.violation('exception', f'step {k + 1} of a history: {type(e).__name__}: {str(e)[:150]}', strip(upto))
+                break
+            rec2 = drive(step_case)
+            ctx.count('history_steps')
+            for key_ in step['set']:
+                ctx.count('history_set_' + key_)
+            if isinstance(rec['out'], str) or isinstance(rec2['out'], str):
+                if rec['out'] != rec2['out']:
+                    ctx.violation('history_dependence', f"step {k + 1}: used fibre {rec['out'] if isinstance(rec['out'], str) else 'numeric'}, "
+                                  f"fresh fibre with the same parameters {rec2['out'] if isinstance(rec2['out'], str) else 'numeric'}", strip(upto))
+            else:
+                for i_, (a_, b_) in enumerate(zip(rec['out'], rec2['out'])):
+                    if not close(a_, b_, 1e-12):
+                        ctx.violation('history_dependence', f'step {k + 1} (after setting {step["set"]}): NLI of channel {i_} on the used fibre '
+                                      f'{a_!r}, on a fresh fibre with the same parameters {b_!r}', strip(upto))
+                        break
+            if 'fiber' in rec2:
+                rec['fiber'] = rec2['fiber']       # the variations of the scaling oracles are run on the fresh object
+            judge(step_case, rec, record=upto)
 
     outs = coq_eval_retry(ctx, 'C03', 'Prelude Num NumRun Model.GN Run.C03', terms + st_terms, per_file=ctx.scale(30, 60),
                            prelude='Open Scope float_scope.')
@@ -684,6 +808,6 @@ def run(ctx):
         'NumF (binary64 with Gallina exp/ln/asinh/10^x/log10) approximates NumR: not proved; checked against libm on '
         'random points in every run (max relative error recorded in coverage.numf_selftest) and absorbed by the 1e-9 tolerance (measured deviation model vs gnpy <= 3e-13)',
         'Raman effect off (sim_params.raman_params.flag = False); the GGN methods are not covered by C03',
-        'table frequencies of per-frequency loss / dispersion are supplied sorted (scipy interp1d would sort them)',
+        'per-frequency loss / dispersion tables are given to gnpy in increasing, decreasing or arbitrary row order; model and references use the rows sorted by frequency',
     ]
     return common.finish(ctx, {})
